@@ -2,6 +2,7 @@ package main
 
 import (
 	"bytes"
+	"errors"
 	"fmt"
 	"hash/crc32"
 	"io"
@@ -112,6 +113,18 @@ func (w *cw6) WriteLevel(l zerolog.Level, p []byte) (int, error) {
 	return len(p), nil
 }
 
+type plainOnly6 struct{ w io.Writer }
+
+func (p plainOnly6) Write(b []byte) (int, error) { return p.w.Write(b) }
+
+type admitAll6 struct{}
+
+func (admitAll6) Sample(zerolog.Level) bool { return true }
+
+type obj6 struct{ w int }
+
+func (o obj6) MarshalZerologObject(e *zerolog.Event) { e.Int("w", o.w) }
+
 type addHook6 struct{ k string }
 
 func (h addHook6) Run(e *zerolog.Event, l zerolog.Level, m string) { e.Str(h.k, "hv") }
@@ -129,20 +142,26 @@ func newW6(name string, console bool, delayMod int, viol func(string, string)) *
 // c06run executes one configuration: phase 1 alone, phase 2 concurrently.
 func c06run(out *evid.Out, f *evid.Flags, run int) {
 	r := rng.New(f.Seed, 0xc06, uint64(run))
-	G := []int{4, 32}[run%2]
+	// destination kind cycles fastest; the other parameters are decoded from the remaining digits of the run
+	// number so that no two of them are tied together
+	const nDest = 7
+	destKind := run % nDest // 0 plain, 1 SyncWriter(LevelWriter), 2 Multi of two, 3 ConsoleWriter literal, 4 log.Logger global, 5 NewConsoleWriter(...), 6 SyncWriter(plain io.Writer)
+	q := run / nDest
+	G := []int{4, 32}[q%2]
 	K := 40 + r.Intn(60)
+	procs := []int{16, 2, 16, 1}[(q/2)%4]
 	if f.Thorough() {
-		G = []int{2, 4, 16, 64, 256}[run%5]
+		G = []int{2, 4, 16, 64, 256}[q%5]
+		procs = []int{16, 2, 16, 1}[(q/5)%4]
 		K = 20 + r.Intn(200)
 		if G == 256 {
 			K = 10 + r.Intn(30)
 		}
 	}
-	procs := []int{16, 16, 2, 1}[run%4]
 	old := runtime.GOMAXPROCS(procs)
 	defer runtime.GOMAXPROCS(old)
-	destKind := run % 6 // 0 plain, 1 SyncWriter, 2 Multi of two, 3 ConsoleWriter literal, 4 log.Logger global, 5 NewConsoleWriter(...)
-	withSampler := run%3 == 0 && destKind != 3 && destKind != 5
+	withSampler := r.Chance(1, 3) && destKind != 3 && destKind != 5
+	samplerKind := r.Intn(2) // 0: BasicSampler{3}; 1: LevelSampler -> BurstSampler that admits everything (atomics under contention)
 	st := gen.DefaultSettings()
 	st.GlobalLevel = zerolog.TraceLevel
 	restore := st.Apply()
@@ -166,11 +185,21 @@ func c06run(out *evid.Out, f *evid.Flags, run int) {
 			var ev gen.EventSpec
 			ev.Entry = "WithLevel"
 			ev.Level = zerolog.Level(1 + cr.Intn(3)) // info..error: unaffected by the level toggler
+			switch cr.Intn(8) {
+			case 0:
+				ev.Entry, ev.Level = "Info", zerolog.InfoLevel
+			case 1:
+				ev.Entry, ev.Level = "Warn", zerolog.WarnLevel
+			case 2:
+				ev.Entry, ev.Level = "Error", zerolog.ErrorLevel
+			case 3:
+				ev.Entry, ev.Level, ev.Err = "Err", zerolog.ErrorLevel, errors.New("e6")
+			}
 			stack := false
 			for j, n := 0, cr.Intn(6); j < n; j++ {
 				ev.Ops = append(ev.Ops, g.KeyedOp(gen.FeEvent, 0, &stack))
 			}
-			ev.Fin = []string{"Msg", "Msgf", "Send"}[cr.Intn(3)]
+			ev.Fin = []string{"Msg", "Msgf", "Send", "MsgFunc"}[cr.Intn(4)]
 			ev.Msg = g.V.String()
 			chains[w] = append(chains[w], chain6{id: fmt.Sprintf("w%d-%d", w, i), ev: ev, lvl: ev.Level})
 		}
@@ -186,6 +215,9 @@ func c06run(out *evid.Out, f *evid.Flags, run int) {
 		case 3:
 			a := newW6("console-out", true, delay, viol)
 			return zerolog.ConsoleWriter{Out: a, NoColor: true, TimeFormat: time.RFC3339, TimeLocation: time.UTC}, []*cw6{a}
+		case 6:
+			a := newW6("sync-plain", false, delay, viol)
+			return zerolog.SyncWriter(plainOnly6{a}), []*cw6{a}
 		case 5:
 			a := newW6("newconsole-out", true, delay, viol)
 			return zerolog.NewConsoleWriter(func(w *zerolog.ConsoleWriter) {
@@ -201,7 +233,10 @@ func c06run(out *evid.Out, f *evid.Flags, run int) {
 		case 0:
 			return base
 		case 1:
-			return base.With().Int("worker", w).Str("pad", "xxxxxxxxxxxxxxxxxxxxxxxxxxxxxxxxxxxxxxxx").Logger()
+			// containers in the context: derivation itself takes events / arrays from the pools
+			return base.With().Int("worker", w).Str("pad", "xxxxxxxxxxxxxxxxxxxxxxxxxxxxxxxxxxxxxxxx").
+				Dict("cd", zerolog.Dict().Int("w", w).Str("s", "t")).Array("ca", zerolog.Arr().Int(w).Str("u")).
+				Fields(map[string]interface{}{"cf": w}).Object("co", obj6{w}).Logger()
 		case 2:
 			return base.Hook(addHook6{"hk"}).With().Timestamp().Logger()
 		}
@@ -221,7 +256,7 @@ func c06run(out *evid.Out, f *evid.Flags, run int) {
 		capW := make([]*capture6, len(recs1))
 		var root io.Writer
 		switch destKind {
-		case 1:
+		case 1, 6:
 			capW[0] = &capture6{m: map[string][]byte{}}
 			root = zerolog.SyncWriter(capW[0])
 		case 2:
@@ -257,7 +292,11 @@ func c06run(out *evid.Out, f *evid.Flags, run int) {
 	if destKind == 4 {
 		zlog.Logger = base2
 	}
-	sampler := &zerolog.BasicSampler{N: 3}
+	var sampler zerolog.Sampler = &zerolog.BasicSampler{N: 3}
+	if samplerKind == 1 {
+		bs := &zerolog.BurstSampler{Burst: 1 << 30, Period: time.Hour}
+		sampler = zerolog.LevelSampler{InfoSampler: bs, WarnSampler: bs, ErrorSampler: &zerolog.BurstSampler{Burst: 0, Period: time.Hour, NextSampler: bs}}
+	}
 	sampled := base2.Sample(sampler)
 	var sampledIssued int64
 	stop := make(chan struct{})
@@ -275,6 +314,7 @@ func c06run(out *evid.Out, f *evid.Flags, run int) {
 			}
 			zerolog.SetGlobalLevel(zerolog.Level(i%2 - 1))
 			if !withSampler {
+				// read concurrently by every worker that logs through a logger with a sampler (below)
 				zerolog.DisableSampling(i%3 == 0)
 			}
 			_ = zerolog.GlobalLevel()
@@ -289,6 +329,11 @@ func c06run(out *evid.Out, f *evid.Flags, run int) {
 			defer wg.Done()
 			<-start
 			l := mkLogger(base2, w) // derivation happens concurrently with other workers' logging
+			if !withSampler && w%2 == 1 {
+				// a sampler that admits everything: the events are the same, but every one of them reads the
+				// global sampling switch the toggler is flipping
+				l = l.Sample(admitAll6{})
+			}
 			useSampled := withSampler && w%4 == 0
 			for i := range chains[w] {
 				c := &chains[w][i]
@@ -340,11 +385,14 @@ func c06run(out *evid.Out, f *evid.Flags, run int) {
 		}
 		if withSampler {
 			want := (int(sampledIssued) + 2) / 3
+			if samplerKind == 1 {
+				want = int(sampledIssued)
+			}
 			if admitted != want {
-				viol("sampler-share", fmt.Sprintf("[%s] shared BasicSampler{3}: %d of %d events delivered, expected ceil(k/3)=%d", rc.name, admitted, sampledIssued, want))
+				viol("sampler-share", fmt.Sprintf("[%s] shared sampler (kind %d): %d of %d events delivered, expected %d", rc.name, samplerKind, admitted, sampledIssued, want))
 			}
 		}
-		if destKind == 1 && rc.maxInfl > 1 {
+		if (destKind == 1 || destKind == 6) && rc.maxInfl > 1 {
 			viol("syncwriter-overlap", fmt.Sprintf("a writer wrapped in SyncWriter saw %d overlapping calls", rc.maxInfl))
 		}
 		if rc.maxInfl > 1 {
